@@ -76,6 +76,7 @@ void h_send_query(void)
   g_tmo_ok = nondet_bool(); g_ll_ok = nondet_bool(); g_conn.total_queries = nondet_size() >> 1;
   now.sec = nondet_i64(); now.usec = nondet_uint(); __CPROVER_assume(now.sec >= 0 && now.sec < (1LL << 40) && now.usec < 1000000);
   g_ended = g_requeued = g_incfail = g_connerr = g_probed = g_order = g_tmo_destroyed = g_ll_destroyed = g_timeadd = 0; g_fetch_server = NULL;
+  g_cb_may_cancel = nondet_bool(); g_query_released = 0; g_sending = &q; q.qid = nondet_u16();
   size_t tq0 = g_conn.total_queries;
   ares_status_t rv = ares_send_query(have_req ? &g_req : NULL, &q, &now);
   ares_server_t *want = have_req ? &g_req : (ch.rotate ? g_random : &g_first);
@@ -90,6 +91,7 @@ void h_send_query(void)
   }
   if (g_write_status != ARES_SUCCESS) {
     if (g_write_status == ARES_ENOMEM) __CPROVER_assert(g_ended == 1 && g_requeued == 0, "C14: out of memory ends the query");
+    else if (g_query_released) __CPROVER_assert(g_requeued == 0 && g_ended == 0 && rv != ARES_SUCCESS, "C01: a query cancelled while its connection was being closed is left alone (its callback has fired)");
     else __CPROVER_assert(g_requeued == 1 && g_rq_inc == ARES_TRUE && g_ended == 0 && g_incfail + g_connerr == 1, "C06/C09: a write failure demotes the server (or fails the connection) and consumes a try");
     return;
   }
